@@ -326,6 +326,9 @@ GetInfoInv == GetInfoOK
     generator(ctx)
     ctx.cov["distinct_nontrivial"] = sum(len(archs[v]["numbers"]) for v in tabled)
     ctx.cov["exhaustive"] = True
+    # lookups in histories of the whole interface (Hist.tla): names resolved for a table the way the compiler does it, then the table read
+    import histfam
+    histfam.run(ctx)
     ctx.cov["rule"] = ("every entry of the five tables in both directions (from a dump of the real arch package, taken in %d separate processes), every name shared with each "
                        "independent source, all 16 audit ids, GetInfo for every case spelling of the statement's aliases, table-less architectures and near-miss strings "
                        "(%d spellings); distinct_nontrivial = number of table entries" % (len(dumps), len(spellings)))
